@@ -1153,6 +1153,11 @@ func (in *Interp) builtin(st *State, fi int, ci *CallInfo, instr ssa.Instruction
 	case "close":
 		in.emit(st, fi, Event{Kind: EvClose, Instr: instr, Addr: ci.Args[0], Call: ci})
 		return res
+	case "len", "cap":
+		// len/cap of a value known to be nil on this path is 0
+		if res != nil && len(ci.Args) == 1 && (st.Abs(ci.Args[0]).K == Nil || IsNilConst(ci.Args[0])) {
+			st.abs[res] = Abs{K: ConstV, C: constant.MakeInt64(0)}
+		}
 	}
 	in.emit(st, fi, Event{Kind: EvCall, Instr: instr, Call: ci, Res: res})
 	return res
